@@ -152,7 +152,7 @@ def _run_job(prop, job, tier, known, want_sample, t0):
             ob = Obligation(name, hyps, goal)
             ob.unit = "lemma over contracts"
             s_ = z3.Solver()
-            s_.set("timeout", 5000)
+            s_.set("timeout", 1500)
             s_.add(*hyps)
             if s_.check() == z3.unsat:
                 raise CheckerError(f"vacuous lemma (contradictory hypotheses): {name}")
